@@ -5,6 +5,7 @@ CONSTANTS
   MaxUrl = 2
   ReuseOnLookup = FALSE
   FabricatedNorm = FALSE
+  WildHostCheck = TRUE
   KF_Shadow = TRUE
   Source = "all"
   NChunks = 32
